@@ -137,3 +137,78 @@ def rule_witnesses(ctx, rule="WITNESS", which="C02/C04"):
     ok, npass, nfail, log = engine.run_witnesses()
     ctx.ob(rule, "witness", "doctests", ok and npass >= 8, how="%d compile / compile_fail witnesses pass under cargo +nightly test --doc (Send+Sync; no &mut str through Deref [E0596]; no as_mut_str [E0599]; no AsMut<str> [E0277]; each with a compiling twin)" % npass,
            detail="compile witnesses: %d passed, %d failed: %s" % (npass, nfail, log[-400:]))
+
+
+def rule_ownership_primitives(ctx, rule="OWNPRIM"):
+    """C03: transmutes to/from the handle types, mem::forget / ManuallyDrop, and mutable raw views of
+    string storage occur only in the audited functions"""
+    F = ctx.F
+    HANDLE = ("repr::Repr", "repr::heap_buffer::HeapBuffer", "repr::inline_buffer::InlineBuffer", "repr::static_buffer::StaticBuffer", "LeanString")
+    allowed_tm = {"repr::Repr::from_inline", "repr::Repr::from_heap", "repr::Repr::from_static"}
+    seen = {}
+    for path, b in F.bodies.items():
+        for blk in b.blocks:
+            for s in blk["stmts"]:
+                if s["k"] == "assign" and s["rv"]["k"] == "cast" and s["rv"]["kind"] == "Transmute":
+                    if s["rv"]["from"] in HANDLE or s["rv"]["to"] in HANDLE:
+                        seen.setdefault(path, []).append("%s -> %s" % (s["rv"]["from"], s["rv"]["to"]))
+    extra = {p: v for p, v in seen.items() if p not in allowed_tm}
+    ctx.ob(rule, "crate", "transmutes", not extra and len(seen) >= 3, how="handle transmutes only in from_inline / from_heap / from_static (buffer -> Repr)", detail="transmute of a handle type outside the audited constructors: %s" % extra)
+    for p, v in seen.items():
+        if p in allowed_tm:
+            ctx.ob(rule, p, "direction", all(x.endswith("-> repr::Repr") for x in v), how="buffer -> Repr", detail="%s transmutes %s" % (p, v))
+    bad = []
+    for path, b in F.bodies.items():
+        for bb, t in b.calls():
+            n = callee_name(t)
+            if n in ("core::mem::forget", "core::mem::ManuallyDrop::<T>::new", "core::mem::manually_drop::ManuallyDrop::<T>::new", "core::mem::replace", "core::mem::swap", "core::mem::take") and any(h in " ".join(t.get("generic_args", []) + t.get("arg_tys", [])) for h in ("repr::Repr", "LeanString", "HeapBuffer")):
+                bad.append("%s in %s" % (n, path))
+    ctx.ob(rule, "crate", "no-forget/ManuallyDrop/replace", not bad, how="no mem::forget / ManuallyDrop / mem::replace|swap|take on handle types", detail="ownership-bypassing primitive on a handle: %s" % bad[:3])
+
+
+def rule_mut_views(ctx, rule="MUTVIEW"):
+    """C02: mutable raw views are manufactured only in the audited functions"""
+    F = ctx.F
+    allowed = {"repr::Repr::as_slice_mut": "the contract-checked view", "repr::Repr::as_str_mut": "wraps as_slice_mut", "repr::Repr::retain": "dst slice inside the unique str view"}
+    sites = {}
+    for path, b in F.bodies.items():
+        for bb, t in b.calls():
+            n = callee_name(t)
+            if n in ("core::slice::raw::from_raw_parts_mut", "core::str::converts::from_utf8_unchecked_mut", "core::ptr::slice_from_raw_parts_mut", "core::slice::<impl [T]>::get_unchecked_mut", "core::str::<impl str>::as_bytes_mut"):
+                sites.setdefault(path, []).append(n.rsplit("::", 1)[1])
+    extra = {p: v for p, v in sites.items() if p not in allowed and p not in _callers_only_from(F, p, allowed)}
+    ctx.ob(rule, "crate", "raw-mutable-views", not extra and bool(sites), how="from_raw_parts_mut / from_utf8_unchecked_mut only in %s" % sorted(set(sites) & set(allowed)), detail="a mutable raw view of storage is built outside the audited functions: %s" % extra)
+
+
+def _callers_only_from(F, p, allowed):
+    from guards import anchors, callers_of
+    if p in anchors(F):
+        return set()
+    cs = callers_of(F, p)
+    return {p} if cs and all(cb.path in allowed for cb, _, _ in cs) else set()
+
+
+def rule_atomics_syntactic(ctx, rule="P4"):
+    """every atomic operation of the crate is one of the protocol's, on the reference counter"""
+    F = ctx.F
+    n = 0
+    for path, b in F.bodies.items():
+        for bb, t in b.calls():
+            nm = callee_name(t)
+            if not nm.startswith("core::sync::atomic::"):
+                continue
+            n += 1
+            leaf = nm.rsplit("::", 1)[1]
+            site = "%s#%d" % (leaf, sum(1 for i in range(bb) if b.term(i)["k"] == "call" and callee_name(b.term(i)) == nm))
+            if leaf == "fence":
+                ctx.ob(rule, path, "atomic:" + site, True, how="fence")
+                continue
+            if leaf == "new":
+                a = describe(b, b.origin_operand(t["args"][0]))
+                ctx.ob(rule, path, "atomic:" + site, a == "const:1", how="counter initialised to 1", detail="reference counter initialised to %s" % a)
+                continue
+            a0 = describe(b, b.origin_operand(t["args"][0]))
+            on_counter = re.match(r"^repr::heap_buffer::HeapBuffer::reference_count\(", a0) is not None or re.match(r"^&\*repr::heap_buffer::HeapBuffer::header\(.*\)\.0$", a0) is not None
+            ctx.ob(rule, path, "atomic:" + site, leaf in ("fetch_add", "fetch_sub", "load") and on_counter, how="%s on the reference counter" % leaf, line=t.get("line", 0),
+                   detail="atomic operation %s on %s is outside the Arc protocol (only fetch_add / fetch_sub / load on the reference counter are allowed)" % (leaf, a0))
+    ctx.need(rule, "crate", "atomic-sites", n >= 5, "only %d atomic operations found" % n, how="%d atomic operations" % n)
